@@ -165,6 +165,7 @@ pub fn stats(data: &[u8]) {
                 2 => run("C12", "ess-reference", &case, c12::check_arr),
                 _ => {
                     let c = c13::Case {
+                        move_kind: u.int_in_range(0..=2u8).unwrap_or(0),
                         int_scale: [1, 100, 8000][u.int_in_range(0..=2usize).unwrap_or(0)],
                         chains: case.chains.max(2),
                         len: case.draws.min(200),
